@@ -524,16 +524,21 @@ def gen_edge_deck(rng, base_deck, index=None):
         ids.add(cid)
         like = rng.choice(targets) if rng.random() < 0.93 else 777
         raw = rng.choice(EDGE_BUT)
+        pinned = index is not None and index < len(EDGE_BUT)
         if index is not None:
-            # every edge text is used at least once per run
+            # every edge text is used at least once per run; the first time
+            # alone, on an existing cell, as the first card of the deck (so
+            # that no other error hides it)
             raw, index = EDGE_BUT[index % len(EDGE_BUT)], None
-        if rng.random() < 0.3:
+        if pinned:
+            like = rng.choice(targets)
+        elif rng.random() < 0.3:
             raw = raw + ' ' + rng.choice(EDGE_BUT)
         if rng.random() < 0.3:
             raw = raw.upper()
         cell = {'id': cid, 'like': like, 'but': {'raw': raw},
                 'text': f'{cid} like {like} but {raw}'}
-        pos = rng.randrange(len(cells) + 1)
+        pos = 0 if pinned else rng.randrange(len(cells) + 1)
         cells.insert(pos, cell)
         targets.append(cid)
     forced = first_index is not None and first_index >= len(EDGE_BUT) \
